@@ -212,34 +212,39 @@ def r3_sources_and_atoms(ctx):
     yield Ob('map_if:element_if._is_valid_code asks ExternalCodes.isValid(own code set, value)', ok, ctx.floc(f2), '' if ok else 'call %s' % [norm(c) for c in calls])
     ok = any(isinstance(n, ast.Compare) and isinstance(n.ops[0], ast.In) and path_of(n.left) == 'elem_val' and path_of(n.comparators[0]) == 'self.valid_codes' for n in ast.walk(f2))
     yield Ob('map_if:element_if._is_valid_code tests the inline code list', ok, ctx.floc(f2), '' if ok else 'inline membership test changed')
-    # acceptance logic: accepted iff (no list and no external) or in list or external valid -- evaluate
+    # acceptance logic, decided by constant propagation through the function: accepted (True returned, nothing reported)
+    # iff the element has neither list nor external set, or the value is in the inline list, or the external set
+    # accepts it - whatever the shape of the code (flag variable, three ifs, one boolean expression)
+    from ..absint import explore as _explore
+    g2 = ctx.cfg(f2)
+    rep_nodes = {nd.id for nd in g2.nodes if any(isinstance(x, ast.Call) and _is_report(x) for x in g2.walk_exprs(nd))}
+    true_rets = {nd.id for nd in g2.nodes if nd.kind == 'return' and A.const(nd.ast.value) is True}
     bad = []
-    g = ctx.cfg(f2)
-    # structure: bValidCode False; three ifs set True; if not bValidCode: report, return False
-    ifs = [s for s in f2.body if isinstance(s, ast.If)]
-    sets = [s for s in ifs if any(isinstance(x, ast.Assign) and path_of(x.targets[0]) == 'bValidCode' and A.const(x.value) is True for x in s.body)]
-    ok = len(sets) == 3
-    yield Ob('map_if:element_if._is_valid_code three accepting conditions', ok, ctx.floc(f2), '' if ok else '%d accepting conditions' % len(sets))
-    if ok:
-        for codes, ext, member, extvalid in itertools.product(((), ('A',)), (None, 'states'), (False, True), (False, True)):
-            if member and not codes:
-                continue
-            if extvalid and ext is None:
-                continue
-            env = {'self.valid_codes': codes, 'self.external_codes': ext, 'elem_val': 'A' if member else 'Z'}
-            funcs = {'self.root.ext_codes.isValid': lambda k, v: extvalid}
-            acc = False
-            for s in sets:
-                try:
-                    if A.ev(s.test, env, funcs):
-                        acc = True
-                except A.NotClosed as e:
-                    bad.append('accepting condition `%s` depends on %s, not only on the inline list and the external set' % (norm(s.test), e))
-            want = (not codes and ext is None) or member or (ext is not None and extvalid)
-            if acc != want:
-                bad.append('codes=%s external=%s member=%s external-valid=%s -> %s' % (codes, ext, member, extvalid, 'accepted' if acc else 'rejected'))
-        yield Ob('map_if:element_if._is_valid_code accepts iff in the inline list or in the external set (or no list at all)', not bad, ctx.floc(f2),
-                 '' if not bad else bad[0])
+    n_eval = 0
+    for codes, ext, member, extvalid in itertools.product(((), ('A',)), (None, 'states'), (False, True), (False, True)):
+        if member and not codes:
+            continue
+        if extvalid and ext is None:
+            continue
+        env = {'self.valid_codes': codes, 'self.external_codes': ext, 'elem_val': 'A' if member else 'Z'}
+        funcs = {'self.root.ext_codes.isValid': lambda k, v, ev_=extvalid: ev_}
+
+        def _unk(nd, e):
+            raise AnalysisError('element_if._is_valid_code: a test depends on more than the inline list and the external set: %s' % norm(nd.ast))
+        n_eval += 1
+        try:
+            vis = _explore(g2, env, funcs=funcs, on_unknown=_unk)
+        except RuntimeError as e:
+            raise AnalysisError('element_if._is_valid_code: %s' % e)
+        acc = bool(vis & true_rets) and not (vis & rep_nodes)
+        rej = bool(vis & rep_nodes)
+        want = (not codes and ext is None) or member or (ext is not None and extvalid)
+        if acc != want or rej == want:
+            bad.append('codes=%s external=%s member=%s external-valid=%s -> %s' % (codes, ext, member, extvalid, 'accepted' if acc else 'rejected'))
+    yield Ob('map_if:element_if._is_valid_code three accepting conditions', bool(rep_nodes) and bool(true_rets), ctx.floc(f2),
+             '' if rep_nodes and true_rets else 'no accepting return / no report found')
+    yield Ob('map_if:element_if._is_valid_code accepts iff in the inline list or in the external set (or no list at all)', not bad, ctx.floc(f2),
+             '' if not bad else bad[0], detail={'evaluated': n_eval})
     # exclusion list from param
     init = ctx.func('map_if', 'map_if.__init__')
     ec = [c for c in A.calls_in(init) if A.call_target(c)[1] == 'ExternalCodes']
@@ -419,7 +424,8 @@ def r7_dtp_format_from_qualifier(ctx):
         if verdict is not False:
             taken.append((c, verdict))
     # arms of one if/elif chain are tried in order: a call is only reached if no earlier arm is certainly taken
-    taken.sort(key=lambda cv: cv[0].lineno)
+    po_ = A.preorder(fn)
+    taken.sort(key=lambda cv: po_[id(cv[0])])
     reach = []
     for c, v in taken:
         reach.append(c)
